@@ -1,5 +1,6 @@
 (* Correspondence for C01 / C02 (peer/signed-msg.go, peer/signature.go). *)
 From Bifrost Require Export Lib.Base Lib.Sym Lib.SigSym gen.Sig gen.SigHash Sig.Model.
+From Bifrost Require Export Lib.Proto gen.Descs Sig.Wire.
 
 (* how the harness names signature bytes: the bytes NewSignature returned for
    (key, context, hash type, data), other non-empty bytes (numbered), or none *)
@@ -34,10 +35,13 @@ Inductive c01_case :=
 (* ExtractAndVerify(ctx) on a message built field by field *)
 | Msg (ctx : bytes) (from : sender) (pub : pubfield) (ht : Z) (s : sigt) (data : bytes)
       (obs_cls obs_key : nat)
-(* UnmarshalSignedMsg(bytes) then ExtractAndVerify(ctx); decoded = false when
-   the decoder returned an error (the fields are then not meaningful) *)
-| Wire (decoded : bool) (ctx : bytes) (from : sender) (pub : pubfield) (ht : Z) (s : sigt) (data : bytes)
-       (obs_cls obs_key : nat)
+(* UnmarshalSignedMsg(wire) then ExtractAndVerify(ctx) on raw (mutated, random)
+   wire bytes.  from / pub / s are the symbolic readings of the non-empty
+   decoded from_peer_id / pub_key / sig_data values; dec = the concrete fields of
+   the Go struct when the real decoder succeeded (from, pub_key, hash_type,
+   sig_data, data), None when it returned an error *)
+| WireRaw (wire ctx : bytes) (from : sender) (pub : pubfield) (s : sigt)
+          (obs_cls obs_key : nat) (dec : option (bytes * bytes * Z * bytes * bytes))
 (* NewSignedMsg(ctx, k, ht, data) *)
 | SignMsg (ctx : bytes) (k : nat) (ht : Z) (data : bytes) (obs_cls : nat).
 
@@ -46,10 +50,17 @@ Definition c01_agree (c : c01_case) : bool :=
   | Msg ctx from pub ht s data oc ok =>
       let r := extract_and_verify ctx (mk_msg from pub ht s data) in
       Nat.eqb (res_cls r) oc && Nat.eqb (res_key r) ok
-  | Wire decoded ctx from pub ht s data oc ok =>
-      let d := if decoded then Ok (mk_msg from pub ht s data) else Err E_DECODE in
-      let r := decode_and_verify d ctx in
-      Nat.eqb (res_cls r) oc && Nat.eqb (res_key r) ok
+  | WireRaw wire ctx from pub sg oc ok dec =>
+      let R := {| r_sender := fun _ => from; r_pub := fun _ => pub; r_sig := fun _ => eval_sig sg |} in
+      let r := decode_and_verify_wire R ctx wire in
+      Nat.eqb (res_cls r) oc && Nat.eqb (res_key r) ok &&
+      match unmarshal_signed_msg wire, dec with
+      | Ok w, Some (f, p, h, sd, d) =>
+          bytes_eqb (w_from w) f && bytes_eqb (w_pub w) p && (w_ht w =? h) &&
+          bytes_eqb (w_sig w) sd && bytes_eqb (w_data w) d
+      | Err _, None => true
+      | _, _ => false
+      end
   | SignMsg ctx k ht data oc =>
       Nat.eqb (res_cls (new_signed_msg ctx k ht data)) oc
   end.
